@@ -17,7 +17,7 @@ fn cstatus(s: ChronyClockStatus) -> i64 {
 
 fn trk_of(f: &[i64]) -> (Trk, i64) {
     // leap ref_ns now_ns offW dispW delayW intervalW
-    (Trk { leap: f[0] as u16, ref_ns: f[1], off: f[3] as u32, disp: f[4] as u32, delay: f[5] as u32, interval: f[6] as u32, refid: 0 }, f[2])
+    (Trk { leap: f[0] as u16, ref_ns: f[1], off: f[3] as u32, disp: f[4] as u32, delay: f[5] as u32, interval: f[6] as u32, refid: 0, ip4: None }, f[2])
 }
 
 /// extract <leap> <ref_ns> <now_ns> <offW> <dispW> <delayW> <intervalW>  ->  <bound> <status>
@@ -115,7 +115,7 @@ pub fn gen_trk(rng: &mut Rng) -> (Trk, i64) {
     let now: i64 = 1_700_000_000_000_000_000 + rng.range(0, 1_000_000_000_000_000);
     // offsets of both signs; magnitudes from sub-ns to seconds
     let sign = if rng.chance(1, 2) { -1 } else { 1 };
-    let off = if rng.chance(1, 10) { 0 } else { cf(rng, -30, 2, sign) };
+    let off = if rng.chance(1, 10) { 0 } else if rng.chance(1, 5) { cf(rng, 3, 31, sign) } else { cf(rng, -30, 2, sign) };
     let disp = if rng.chance(1, 12) { 0 } else { cf(rng, -34, 2, 1) };
     let delay = if rng.chance(1, 12) { 0 } else { cf(rng, -34, 2, 1) };
     let interval = match rng.below(8) {
@@ -138,7 +138,7 @@ pub fn gen_trk(rng: &mut Rng) -> (Trk, i64) {
         _ => rng.range(0, 20_000_000_000),
     };
     let ref_ns = (now - age_ns).max(0);
-    (Trk { leap, ref_ns, off, disp, delay, interval, refid: 0 }, now)
+    (Trk { leap, ref_ns, off, disp, delay, interval, refid: 0, ip4: None }, now)
 }
 
 pub fn gen_extract(rng: &mut Rng) -> String {
@@ -160,13 +160,23 @@ pub fn leap_grid() -> Vec<String> {
     v
 }
 
+thread_local! { static LAST_SYNC: std::cell::RefCell<Option<(Trk, i64)>> = std::cell::RefCell::new(None); }
+
 fn msg_text(rng: &mut Rng, kind: u64, mono: &mut i64) -> String {
     *mono += rng.range(500_000_000, 3_000_000_000);
+    // now and then: chronyd lost its sources, the reference time is frozen: the SAME report again,
+    // 1000 s later (stale by then)
+    if kind == 1 && rng.chance(1, 3) {
+        if let Some((t, now)) = LAST_SYNC.with(|l| l.borrow().clone()) {
+            let now2 = now + 1_000_000_000_000;
+            return format!("d {} {} {} {} {} {} {} {} {} {}", t.leap, t.ref_ns, now2, t.off, t.disp, t.delay, t.interval, 0, *mono / 1_000_000_000, *mono % 1_000_000_000);
+        }
+    }
     match kind {
         0 | 1 | 2 => {
             // data; kind 0 = synchronised fresh, 1 = leap 3 / stale, 2 = random
             let (mut t, now) = gen_trk(rng);
-            if kind == 0 { t.leap = rng.range(0, 2) as u16; t.ref_ns = now - rng.range(0, 1_000_000_000); t.interval = (5u32 << 25) | (1 << 23); }
+            if kind == 0 { t.leap = rng.range(0, 2) as u16; t.ref_ns = now - rng.range(0, 1_000_000_000); t.interval = (5u32 << 25) | (1 << 23); LAST_SYNC.with(|l| *l.borrow_mut() = Some((t, now))); }
             if kind == 1 { if rng.chance(1, 2) { t.leap = 3 } else { t.leap = 1; t.ref_ns = now - 900_000_000_000; t.interval = (5u32 << 25) | (1 << 23); } }
             let phc = match rng.below(5) { 0 => rng.range(1, 100_000), 1 => rng.pick(&[1i64, 12345, 1 << 40]), _ => 0 };
             format!("d {} {} {} {} {} {} {} {} {} {}", t.leap, t.ref_ns, now, t.off, t.disp, t.delay, t.interval, phc, *mono / 1_000_000_000, *mono % 1_000_000_000)
@@ -180,6 +190,7 @@ fn msg_text(rng: &mut Rng, kind: u64, mono: &mut i64) -> String {
 }
 
 pub fn gen_upd(rng: &mut Rng) -> String {
+    LAST_SYNC.with(|l| *l.borrow_mut() = None);
     let drift = rng.pick(&[0i64, 1000, 50_000, 999_999_999, 4_294_967_295, 1]);
     let len = match rng.below(4) { 0 => rng.range(1, 4), 1 => rng.range(3, 12), 2 => rng.range(10, 60), _ => rng.range(3, 25) };
     let first_sync = match rng.below(4) { 0 => 0, 1 => len + 1, _ => rng.range(0, len) }; // early / never / late
